@@ -1,6 +1,7 @@
 """C08 - improperly nested or truncated markup is never silently accepted as a tree."""
 from ofxtools import Parser
 from sx.models.etree import make_treebuilder
+from sx.models.io import make_source
 from harness.render import sym_tree, render
 from harness.wire import SHAPES
 
@@ -111,10 +112,39 @@ def h_truncate(ctx, shape, datalen):
     ctx.check("a document cut off before its final end tag never yields a tree", out is None)
 
 
-HARNESSES = dict(tokens=h_tokens, truncate=h_truncate)
+V1HEAD = "OFXHEADER:100\r\nDATA:OFXSGML\r\nVERSION:102\r\nSECURITY:NONE\r\nENCODING:USASCII\r\nCHARSET:%s\r\nCOMPRESSION:NONE\r\nOLDFILEUID:NONE\r\nNEWFILEUID:NONE\r\n\r\n"
+BODY = b"<OFX><B><A>1</A></B></OFX>"
+#  insertion points from the data of <A> up to the '>' of its own (optional) end tag: the extra bytes become part of the data, or turn
+#  the optional end tag of a data element into something the tokenizer skips - the property is about aggregate tags, so not asserted
+DATA_POS = tuple(range(BODY.index(b"1"), BODY.index(b"</A>") + 4))
+#  any byte but white space (as bytes or once decoded: 0x85, 0xA0) and the markup characters < > /
+EXTRA = ((0x21, 0x2E), (0x30, 0x3B), (0x3D, 0x3D), (0x3F, 0x84), (0x86, 0x9F), (0xA1, 0xFF))
+
+
+def h_bytes(ctx, charset, nextra):
+    """a whole OFXv1 file through OFXTree.parse: one or two arbitrary extra bytes (decodable in the declared character set
+    or not) at a symbolic place in a well-formed body"""
+    pos = ctx.choice("pos", list(range(1, len(BODY) + 1)))
+    extra = ctx.bytes("x", nextra, EXTRA)
+    data = (V1HEAD % charset).encode("ascii") + BODY[:pos] + extra + BODY[pos:]
+    ctx.observe("file", data)
+    t = Parser.OFXTree()
+    try:
+        t.parse(make_source(data))
+        root = t.getroot()
+    except (SyntaxError, AssertionError, IndexError, ValueError):
+        root = None
+    if pos in DATA_POS:
+        ctx.observe("accepted", root is not None)
+    else:
+        ctx.check("a file whose tags are damaged by extra bytes (misspelled tag, text after an end tag) never yields a tree", root is None)
+
+
+HARNESSES = dict(tokens=h_tokens, truncate=h_truncate, bytes=h_bytes)
 
 META = dict(
     bounds=dict(tokens="sequences of <= 5 (quick) / 6 (thorough) tokens; kind symbolic over open/close/data/blank; names symbolic over 3",
+                files="OFXv1 file (CHARSET 1252 / NONE / ISO-8859-1) with body <OFX><A>1</A></OFX> and 1 (quick) / 1-2 (thorough) arbitrary non-blank, non-markup bytes inserted at every place after the first '<'",
                 truncation="every rendering (no white space) of every tree skeleton with <= 3 (quick) / 4 (thorough) nodes, cut at every index before the last '>'"),
     models=["re backtracking matcher on TreeBuilder.regex", "C-faithful TreeBuilder state machine (end() ignores its argument; close() ignores open elements)"],
     observations=["characters before the first tag of the body are skipped silently (the property lists text after an end tag, not before the root)"],
@@ -131,4 +161,7 @@ def instances(tier, seed):
     for sh in (["2", "3a", "3b"] if not full else list(SHAPES)):
         out.append(dict(name=f"truncate[{sh}]", harness="truncate", fn=h_truncate, params=dict(shape=sh, datalen=1 if not full else [1, 2]),
                         opts=dict(wall_s=600 if not full else 3000, max_paths=200000)))
+    for cs in ("1252", "NONE", "ISO-8859-1"):
+        for k in ((1,) if not full else (1, 2)):
+            out.append(dict(name=f"bytes[{cs},{k}]", harness="bytes", fn=h_bytes, params=dict(charset=cs, nextra=k), opts=dict(wall_s=600, max_paths=100000)))
     return out
